@@ -31,6 +31,10 @@ where
     fn lib_encode(a: &Self::Aff, compressed: bool) -> Vec<u8>;
     fn points(rng: &mut SplitMix, seeded: usize, small: usize) -> Vec<NamedPt<Self::K>>;
     fn embed(k: u64) -> Self::K;
+    /// coordinate pairs that are NOT on the curve but are annihilated by r under the (b-independent) group-law formulas
+    fn foreign_order_r() -> Vec<(Self::K, Self::K)> {
+        vec![]
+    }
     /// curve points whose y has a zero component (the lexicographic order of y, -y is then decided by the
     /// other component alone): (class, x, y)
     fn tie_points() -> Vec<(&'static str, Self::K, Self::K)> {
@@ -103,6 +107,13 @@ impl WireCurve for RG2 {
     }
     fn embed(k: u64) -> Q2 {
         q2u(k, 1)
+    }
+    fn foreign_order_r() -> Vec<(Q2, Q2)> {
+        // the G1 generator embedded in Fq2: on y^2 = x^3 + 4, not on the G2 curve, of order r
+        match g1_gen() {
+            Pt::Aff(x, y) => vec![(Q2::new(vec![x, Q1::zero()]), Q2::new(vec![y, Q1::zero()]))],
+            _ => vec![],
+        }
     }
     fn tie_points() -> Vec<(&'static str, Q2, Q2)> {
         // x = a + b u with Im(x^3) = 3a^2 b - b^3 = -4, so that x^3 + 4(1+u) lies in Fq; then y is in Fq or in u*Fq
@@ -219,6 +230,22 @@ where
                 xs.push(("x without a square root", x.to_wire(), None));
             }
             _ => {}
+        }
+    }
+    // off-curve pairs of order r: subgroup points scaled onto the isomorphic curves y^2 = x^3 + b u^6, and
+    // points of order r of other curves over the same field
+    {
+        let mut foreign: Vec<(C::K, C::K)> = C::foreign_order_r();
+        if let Pt::Aff(x, y) = &pts[1].p {
+            for k in [2u64, 3] {
+                let u = C::embed(k);
+                foreign.push((x.mul(&u.sq()), y.mul(&u.sq().mul(&u))));
+            }
+        }
+        for (x, y) in foreign {
+            if !c.on_curve(&Pt::Aff(x.clone(), y.clone())) {
+                xs.push(("off-curve pair annihilated by r (order-r point of another curve)", x.to_wire(), Some(y)));
+            }
         }
     }
     for (cls, x, y) in C::tie_points() {
